@@ -146,7 +146,7 @@ GEN_DIR = os.path.join(LEAN, "GoSSE", "Gen")
 GEN_EQUIV = "GoSSE.Proofs.GenEquiv"
 GEN_EQUIV_MODS = ["GoSSE.Proofs.GenEquiv", "GoSSE.Proofs.GenEquivQueue", "GoSSE.Proofs.GenEquivFields",
                   "GoSSE.Proofs.GenEquivScan", "GoSSE.Proofs.GenEquivWrite", "GoSSE.Proofs.GenEquivReplay"]
-GEN_MODS = ["Parser", "Root", "Bufio", "Fields", "Write", "Replay"]   # in import order
+GEN_MODS = ["Parser", "Root", "Bufio", "Fields", "Write", "Replay", "Unmarshal"]   # in import order
 
 
 def _theorem_at(path, lineno):
